@@ -633,9 +633,6 @@ def emit_with_sites(prog):
 # =========================================================================================
 # 3. runtime: run state, helpers visible to programs, managers, truth
 # =========================================================================================
-_CUR = [None]
-
-
 class Run:
     def __init__(self, vec=(), throw_at=None, on_probe=None, on_suspend=None, max_len=MAX_VEC):
         self.vec = list(vec)
@@ -661,10 +658,15 @@ class Run:
         self.main_obj = None
         self.driver_frame = None
         self.result = None
+        self.finished = False    # set when the driver is done: later events (finalisers of
+        #                          abandoned generators) still land in this run's own log, but no
+        #                          observer is called and no limit applies
+        self.trace = None        # tuple(log) taken at that moment: what twin runs compare
+        self.namespace = None
 
     def tick(self):
         self.steps += 1
-        if self.steps > STEP_CAP and not self.aborted:
+        if self.steps > STEP_CAP and not self.aborted and not self.finished:
             self.aborted = True
             raise Abort()
 
@@ -689,7 +691,7 @@ class Run:
         self.tick()
         idx = self.nprobe
         self.nprobe += 1
-        if self.on_probe is not None and not self.aborted:
+        if self.on_probe is not None and not self.aborted and not self.finished:
             self.on_probe(self, where, m, idx)
 
     def owner_of(self, pyframe):
@@ -706,55 +708,54 @@ class Run:
     def expected(self, owner):
         return [(m, a, ph == "exiting") for (m, a, ph) in self.truth.get(owner, ()) if ph != "entering"]
 
+    # helpers visible to the programs of this run ---------------------------------------
+    def c(self):
+        R = self
+        R.tick()
+        i = len(R.used)
+        if i < R.max_len:
+            b = bool(R.vec[i]) if i < len(R.vec) else False
+            R.used.append(b)
+        else:
+            b = False
+        R.log.append(("c", b))
+        R.hook("cond", None)      # a call site inside the body: branch conditions
+        return b
 
-# code of a finished or abandoned target may still run later (finalisation of generators that a
-# dropped result kept alive): it then talks to this inert run instead of a live one
-_DEAD = Run()
-_DEAD.aborted = True
-_CUR[0] = _DEAD
+    def v(self):
+        R = self
+        R.tick()
+        R.vcount += 1
+        R.log.append(("v", R.vcount))
+        R.hook("value", None)     # e.g. `return v()` inside a with body
+        return 1000 + R.vcount
 
+    def r(self, x):
+        R = self
+        R.tick()
+        R.log.append(("recv", x))
 
-def _c():
-    R = _CUR[0]
-    R.tick()
-    i = len(R.used)
-    if i < R.max_len:
-        b = bool(R.vec[i]) if i < len(R.vec) else False
-        R.used.append(b)
-    else:
-        b = False
-    R.log.append(("c", b))
-    R.hook("cond", None)      # a call site inside the body: branch conditions
-    return b
+    def r2(self, x):
+        self.r(x)
+        return x
 
+    def probe(self):
+        self.hook("body", None)
 
-def _v():
-    R = _CUR[0]
-    R.tick()
-    R.vcount += 1
-    R.log.append(("v", R.vcount))
-    R.hook("value", None)     # e.g. `return v()` inside a with body
-    return 1000 + R.vcount
+    def rng(self, n):
+        self.tick()
+        return range(n)
 
+    def sn(self):
+        R = self
+        s = Sentinel(len(R.sentinels))
+        R.sentinels.append(weakref.ref(s))
+        return s
 
-def _r(x):
-    R = _CUR[0]
-    R.tick()
-    R.log.append(("recv", x))
-
-
-def _r2(x):
-    _r(x)
-    return x
-
-
-def _probe():
-    _CUR[0].hook("body", None)
-
-
-def _R(n):
-    _CUR[0].tick()
-    return range(n)
+    def hold(self, a, b):
+        R = self
+        R.tick()
+        R.log.append(("hold", a.n, b))
 
 
 class Sentinel(object):
@@ -762,19 +763,6 @@ class Sentinel(object):
 
     def __init__(self, n):
         self.n = n
-
-
-def _sn():
-    R = _CUR[0]
-    s = Sentinel(len(R.sentinels))
-    R.sentinels.append(weakref.ref(s))
-    return s
-
-
-def _hold(a, b):
-    R = _CUR[0]
-    R.tick()
-    R.log.append(("hold", a.n, b))
 
 
 @types.coroutine
@@ -786,18 +774,25 @@ def trap(k):
 class _NS(object):
     """`with ... as ns.aN`: the store happens after __enter__ returned (manager already active)."""
 
+    def __init__(self, R):
+        object.__setattr__(self, "_run", R)
+
     def __setattr__(self, name, value):
-        R = _CUR[0]
-        if R is not None:
-            R.hook("store", None)
+        self._run.hook("store", None)
         object.__setattr__(self, name, value)
+
+    def _clear(self):
+        for k in [k for k in self.__dict__ if k != "_run"]:
+            object.__delattr__(self, k)
 
 
 class _D(dict):
+    def __init__(self, R):
+        dict.__init__(self)
+        self._run = R
+
     def __setitem__(self, key, value):
-        R = _CUR[0]
-        if R is not None:
-            R.hook("store", None)
+        self._run.hook("store", None)
         dict.__setitem__(self, key, value)
 
 
@@ -812,6 +807,7 @@ class SyncMgr(object):
     is_async = False
 
     def __init__(self, R, kind, site, serial, owner):
+        self.R = R
         self.kind = kind
         self.site = site
         self.owner = owner
@@ -822,12 +818,12 @@ class SyncMgr(object):
         return self._pl
 
     def __enter__(self):
-        R = _CUR[0]
+        R = self.R
         R.log.append(("enter", self.serial))
         R.t_begin(self.owner, self, False)
         try:
             R.hook("enter", self)
-            if self.kind == "Sr" and _c():
+            if self.kind == "Sr" and R.c():
                 raise E1("enter")
         except BaseException:
             R.t_remove(self.owner, self)
@@ -837,12 +833,12 @@ class SyncMgr(object):
         return self
 
     def __exit__(self, et, ev, tb):
-        R = _CUR[0]
+        R = self.R
         R.log.append(("exit", self.serial, et.__name__ if et else None))
         R.t_phase(self.owner, self, "exiting")
         try:
             R.hook("exit", self)
-            if self.kind == "Sq" and _c():
+            if self.kind == "Sq" and R.c():
                 raise E2("exit")
         finally:
             R.log.append(("exited", self.serial))
@@ -854,6 +850,7 @@ class AsyncMgr(object):
     is_async = True
 
     def __init__(self, R, kind, site, serial, owner):
+        self.R = R
         self.kind = kind
         self.owner = owner
         self._pl = "%s@%d#%d" % (kind, site, serial)
@@ -864,15 +861,15 @@ class AsyncMgr(object):
         return self._pl
 
     async def __aenter__(self):
-        R = _CUR[0]
+        R = self.R
         R.log.append(("enter", self.serial))
         R.t_begin(self.owner, self, True)
         try:
             R.hook("enter", self)
             if self.kind in ("A", "Aw", "Ae", "Ar", "Aa", "Ad", "Am", "Av"):
-                _r(await trap(-self.site))
+                R.r(await trap(-self.site))
                 R.hook("enter2", self)
-            if self.kind == "Ar" and _c():
+            if self.kind == "Ar" and R.c():
                 raise E1("aenter")
         except BaseException:
             R.t_remove(self.owner, self)
@@ -882,13 +879,13 @@ class AsyncMgr(object):
         return self
 
     async def __aexit__(self, et, ev, tb):
-        R = _CUR[0]
+        R = self.R
         R.log.append(("exit", self.serial, et.__name__ if et else None))
         R.t_phase(self.owner, self, "exiting")
         try:
             R.hook("exit", self)
             if self.kind in ("A", "Aw", "Ax", "Ar", "Aa", "Ad", "Am", "Av"):
-                _r(await trap(-1000 - self.site))
+                R.r(await trap(-1000 - self.site))
                 R.hook("exit2", self)
         finally:
             R.log.append(("exited", self.serial))
@@ -1000,7 +997,8 @@ FLAVOURS = {"Sa": SyncAliased, "Sd": SyncDecorated, "Sv": SyncVarDecorated, "Sm"
 
 
 class _Box(object):
-    def __init__(self, kind, site, serial, owner):
+    def __init__(self, R, kind, site, serial, owner):
+        self.R = R
         self.kind = kind
         self.site = site
         self.serial = serial
@@ -1010,7 +1008,7 @@ class _Box(object):
 
 @contextlib.contextmanager
 def _g(box):
-    R = _CUR[0]
+    R = box.R
     m = box.mgr
     R.log.append(("enter", box.serial))
     R.t_begin(box.owner, m, False)
@@ -1024,7 +1022,7 @@ def _g(box):
     try:
         yield m
     except Exception as ex:
-        R = _CUR[0]
+        R = box.R
         R.log.append(("exit", box.serial, type(ex).__name__))
         R.t_phase(box.owner, m, "exiting")
         try:
@@ -1035,7 +1033,7 @@ def _g(box):
         if box.kind != "Gw":
             raise
     else:
-        R = _CUR[0]
+        R = box.R
         R.log.append(("exit", box.serial, None))
         R.t_phase(box.owner, m, "exiting")
         try:
@@ -1047,7 +1045,7 @@ def _g(box):
 
 @contextlib.contextmanager
 def _g2(box):
-    R = _CUR[0]
+    R = box.R
     m = box.mgr
     me = ("g", box.serial)
     R.log.append(("enter", box.serial))
@@ -1055,7 +1053,7 @@ def _g2(box):
     ok = False
     try:
         R.hook("enter", m)
-        with M("S", 500 + box.site, me) as inner:
+        with R.M("S", 500 + box.site, me) as inner:
             R.hook("enter2", m)
             R.log.append(("entered", box.serial))
             R.t_phase(box.owner, m, "active")
@@ -1063,13 +1061,13 @@ def _g2(box):
             try:
                 yield m
             finally:
-                R = _CUR[0]
+                R = box.R
                 R.log.append(("exit", box.serial, None))
                 R.t_phase(box.owner, m, "exiting")
                 R.hook("exit", m)
     finally:
         # reached when enter failed, or after the inner with has been left on exit
-        R = _CUR[0]
+        R = box.R
         if ok:
             R.log.append(("exited", box.serial))
         R.t_remove(box.owner, m)
@@ -1080,13 +1078,13 @@ def _make_async_gen_managers():
 
     @acm
     async def _ag(box):
-        R = _CUR[0]
+        R = box.R
         m = box.mgr
         R.log.append(("enter", box.serial))
         R.t_begin(box.owner, m, True)
         try:
             R.hook("enter", m)
-            _r(await trap(-2000 - box.site))
+            R.r(await trap(-2000 - box.site))
             R.hook("enter2", m)
         except BaseException:
             R.t_remove(box.owner, m)
@@ -1096,12 +1094,12 @@ def _make_async_gen_managers():
         try:
             yield m
         except Exception as ex:
-            R = _CUR[0]
+            R = box.R
             R.log.append(("exit", box.serial, type(ex).__name__))
             R.t_phase(box.owner, m, "exiting")
             try:
                 R.hook("exit", m)
-                _r(await trap(-3000 - box.site))
+                R.r(await trap(-3000 - box.site))
                 R.hook("exit2", m)
             finally:
                 R.log.append(("exited", box.serial))
@@ -1109,12 +1107,12 @@ def _make_async_gen_managers():
             if box.kind != "AGw":
                 raise
         else:
-            R = _CUR[0]
+            R = box.R
             R.log.append(("exit", box.serial, None))
             R.t_phase(box.owner, m, "exiting")
             try:
                 R.hook("exit", m)
-                _r(await trap(-3000 - box.site))
+                R.r(await trap(-3000 - box.site))
                 R.hook("exit2", m)
             finally:
                 R.log.append(("exited", box.serial))
@@ -1122,7 +1120,7 @@ def _make_async_gen_managers():
 
     @acm
     async def _ag2(box):
-        R = _CUR[0]
+        R = box.R
         m = box.mgr
         me = ("g", box.serial)
         R.log.append(("enter", box.serial))
@@ -1130,7 +1128,7 @@ def _make_async_gen_managers():
         ok = False
         try:
             R.hook("enter", m)
-            async with M("A", 600 + box.site, me) as inner:
+            async with R.M("A", 600 + box.site, me) as inner:
                 R.hook("enter2", m)
                 R.log.append(("entered", box.serial))
                 R.t_phase(box.owner, m, "active")
@@ -1138,12 +1136,12 @@ def _make_async_gen_managers():
                 try:
                     yield m
                 finally:
-                    R = _CUR[0]
+                    R = box.R
                     R.log.append(("exit", box.serial, None))
                     R.t_phase(box.owner, m, "exiting")
                     R.hook("exit", m)
         finally:
-            R = _CUR[0]
+            R = box.R
             if ok:
                 R.log.append(("exited", box.serial))
             R.t_remove(box.owner, m)
@@ -1154,8 +1152,7 @@ def _make_async_gen_managers():
 _ag, _ag2 = _make_async_gen_managers()
 
 
-def M(kind, site, owner="main", *extra):
-    R = _CUR[0]
+def _new_manager(R, kind, site, owner="main", *extra):
     R.tick()
     R.serial += 1
     serial = R.serial
@@ -1167,7 +1164,7 @@ def M(kind, site, owner="main", *extra):
     elif kind in ("A", "Aw", "Ae", "Ax", "A0", "Ar"):
         m = AsyncMgr(R, kind, site, serial, owner)
     else:
-        box = _Box(kind, site, serial, owner)
+        box = _Box(R, kind, site, serial, owner)
         fn = {"G": _g, "Gw": _g, "G2": _g2, "AG": _ag, "AGw": _ag, "AG2": _ag2}[kind]
         m = fn(box)
         box.mgr = m
@@ -1180,27 +1177,54 @@ def M(kind, site, owner="main", *extra):
     return m
 
 
-def make_namespace():
-    return {"c": _c, "v": _v, "r": _r, "r2": _r2, "probe": _probe, "R": _R, "M": M, "E1": E1, "E2": E2,
-            "trap": trap, "hold": _hold, "sn": _sn, "ns": _NS(), "d": _D(), "__name__": "progs_gen"}
+def _run_M(self, kind, site, owner="main", *extra):
+    return _new_manager(self, kind, site, owner, *extra)
 
 
-_COMPILED = {}
+def _run_release(self):
+    """End of the run: freeze the trace, switch observers off, drop what the program's globals
+    hold (`as ns.x` / `as d[i]` targets)."""
+    if self.trace is None:
+        self.trace = tuple(self.log)
+    self.finished = True
+    self.driver_frame = None
+    ns = self.namespace
+    self.namespace = None
+    if ns is not None:
+        ns["ns"]._clear()
+        ns["d"].clear()
+
+
+Run.M = _run_M
+Run.release = _run_release
+
+
+def make_namespace(R):
+    """Globals for one instantiation of a program: every helper is bound to the run R."""
+    return {"c": R.c, "v": R.v, "r": R.r, "r2": R.r2, "probe": R.probe, "R": R.rng, "M": R.M, "E1": E1, "E2": E2,
+            "trap": trap, "hold": R.hold, "sn": R.sn, "ns": _NS(R), "d": _D(R), "__name__": "progs_gen"}
 
 
 class Program(object):
-    """A compiled program: source, function, code object."""
-    __slots__ = ("desc", "src", "fn", "code", "pid", "sites")
+    """A compiled program: source, code object; `instantiate(R)` gives the function for run R
+    (fresh globals whose helpers and managers write to R only)."""
+    __slots__ = ("desc", "src", "fn", "code", "pid", "sites", "module_code")
 
     def __init__(self, desc, pid):
         self.desc = desc
         self.pid = pid
         self.src, self.sites = emit_with_sites(desc)
-        ns = make_namespace()
-        code = compile(self.src, "<prog:%s>" % pid, "exec")
-        exec(code, ns)
-        self.fn = ns["prog"]
+        self.module_code = compile(self.src, "<prog:%s>" % pid, "exec")
+        inert = Run()
+        inert.finished = True
+        self.fn = self.instantiate(inert)
         self.code = self.fn.__code__
+
+    def instantiate(self, R):
+        ns = make_namespace(R)
+        R.namespace = ns
+        exec(self.module_code, ns)
+        return ns["prog"]
 
     @property
     def variant(self):
@@ -1220,33 +1244,29 @@ def execute(prog, vec, throw_at=None, on_probe=None, on_suspend=None):
     """Run `prog` through the branch vector `vec`; at suspension number `throw_at` (0-based) the
     driver resumes with throw(E1) instead of send.  Returns the Run."""
     R = Run(vec, throw_at, on_probe, on_suspend)
-    prev = _CUR[0]
-    _CUR[0] = R
+    fn = prog.instantiate(R)
     R.foi.append(("code", prog.code, "main"))
     R.driver_frame = sys._getframe(0)
     try:
         v = prog.variant
         if v == "sync":
-            R.result = _drive_sync(R, prog)
+            R.result = _drive_sync(R, fn)
         elif v == "gen":
-            R.result = _drive_gen(R, prog.fn(), "gen")
+            R.result = _drive_gen(R, fn(), "gen")
         elif v == "coro":
-            R.result = _drive_gen(R, prog.fn(), "coro")
+            R.result = _drive_gen(R, fn(), "coro")
         else:
-            R.result = _drive_agen(R, prog.fn())
+            R.result = _drive_agen(R, fn())
         R.log.append(("result",) + tuple(R.result))
     finally:
-        _CUR[0] = prev
-        R.driver_frame = None
-        g = prog.fn.__globals__
-        g["ns"].__dict__.clear()
-        g["d"].clear()
+        fn = None
+        R.release()
     return R
 
 
-def _drive_sync(R, prog):
+def _drive_sync(R, fn):
     try:
-        return _res("return", prog.fn())
+        return _res("return", fn())
     except (E1, E2) as ex:
         return ("raise", type(ex).__name__)
     except Abort:
@@ -1983,9 +2003,9 @@ def leg_running(tier="quick", seed=0, variants=VARIANTS, progs=None, shard=None,
 
 
 # ---- C20 extras -----------------------------------------------------------------------------
-def _fixed_target():
+def _fixed_target(R):
     """A coroutine suspended inside two managers with distinguishable trickery-only details."""
-    ns = make_namespace()
+    ns = make_namespace(R)
     src = ("async def prog():\n"
            "    with M('S', 1) as first:\n"
            "        async with M('A0', 2) as second:\n"
@@ -1999,9 +2019,8 @@ def trickery_sequences(col, tier, seed):
     on a second thread: trickery <=> start_line/varname are filled in."""
     ll = _ll()
     rng = random.Random(seed * 31 + 5)
-    fn = _fixed_target()
     R = Run()
-    _CUR[0] = R
+    fn = _fixed_target(R)
     co = fn()
     co.send(None)
 
@@ -2113,7 +2132,7 @@ def trickery_sequences(col, tier, seed):
     finally:
         ll.set_trickery_enabled(None)
         co.close()
-        _CUR[0] = _DEAD
+        R.release()
 
 
 FAULT_HELPERS = ("analyze_with_blocks", "inspect_frame", "currently_exiting_context",
